@@ -392,3 +392,96 @@ def check_lib(run, info, n_valid, n_mutants, tag):
             run.violation("correspondence", "library model and parse_program disagree on %r: model %s, parser %s" % (
                 t[:140], str(mm)[:200], str(got)[:200]), {"input": {"text": t}, "model": mm, "parser": got}, no_input=True)
     return stats
+
+
+TVOC = LVOC + [kw("TYPE"), kw("END_TYPE"), kw("ARRAY"), kw("OF"), sym("["), sym("]"), sym(".."), sym(")"), ident("Ty1"), kw("SINT"), kw("REAL"), lit("3")]
+
+
+def impl_elements(r):
+    if "ok" in r:
+        tr = debugtree.compact(debugtree.norm(debugtree.parse(r["ok"])))
+        got = gen_st.sx_elements_of_library(tr)
+        return "OUTSIDE-NOTATION" if got is None else got
+    if "err" in r:
+        return "REJECTED"
+    return "CRASH:" + str(r.get("panic") or r.get("abort"))
+
+
+def check_lib2(run, info, n_valid, n_mutants, tag):
+    """the library model with TYPE blocks (parse_lib2_text) three ways on generated libraries, and model vs parse_program on
+    token-level mutants (concentrated in TYPE blocks)"""
+    rng = run.rng
+    known_keys = {x["key"] for x in run.known}
+    valid = []
+    for i in range(n_valid):
+        us, lx = gen_st.lib2_elements(rng, depth=1)
+        valid.append((us, gen_prog.render(lx, None)))
+        valid.append((us, gen_prog.render(lx, gen_prog.Spelling(rng, respell=True, nonascii=rng.random() < 0.3))))
+    mutants = []
+    for i in range(n_mutants):
+        t = gen_st.T_(rng)
+        o, lx = t.block(0)
+        if rng.random() < 0.3:
+            us, ul = gen_st.lib_units(rng, depth=1)
+            lx = lx + ul
+        lx = list(lx)
+        for _ in range(rng.choice([1, 1, 2, 3])):
+            if len(lx) <= 3:
+                break
+            j = rng.randrange(0, len(lx))
+            r = rng.random()
+            if r < 0.35:
+                del lx[j]
+            elif r < 0.6:
+                lx.insert(j, rng.choice(TVOC))
+            elif r < 0.8:
+                lx[j] = rng.choice(TVOC)
+            else:
+                lx.insert(j, lx[j])
+        mutants.append(gen_prog.render(lx, None))
+    texts = [t for _, t in valid] + mutants
+    res = vlib.run_impl([{"id": i, "op": "parse", "text": hexs(t)} for i, t in enumerate(texts)], run.workdir, per_case_timeout=30)
+    model = vlib.run_model([("lib2", i, [hexs(t)]) for i, t in enumerate(texts)], run.workdir) if info.get("extract_ok") else {}
+    stats = {"valid": 0, "mutant-accepted": 0, "mutant-rejected": 0, "model-scope": 0, "model-fuel": 0, "known-program-edges": 0}
+    for i, t in enumerate(texts):
+        got = impl_elements(res[i])
+        m = model.get(str(i))
+        mm = None
+        if m:
+            mm = list(m[1:]) if m[0] == "parsed" else {"rejected": "REJECTED", "scope": "SCOPE", "fuel": "FUEL"}.get(m[0], m[0])
+        is_valid = i < len(valid)
+        run.count(("lib2", t), True, "type-library-model:" + ("valid" if is_valid else "mutant") + ":" + tag)
+        if isinstance(got, str) and got.startswith("CRASH"):
+            run.violation("impl-violates-property", "parse_program crashed on a library with TYPE blocks: %s" % got, {"input": {"text": t}})
+            continue
+        if is_valid:
+            want = valid[i][0]
+            stats["valid"] += 1
+            if got != want:
+                if KNOWN_PROGRAM_EDGES in known_keys and got == _without_program_edges(want):
+                    stats["known-program-edges"] += 1
+                    run.known_finding(KNOWN_PROGRAM_EDGES, "the edge-detecting inputs (R_EDGE / F_EDGE) of a PROGRAM are parsed and then dropped: the library does not hold them")
+                else:
+                    run.violation("impl-violates-property", "library %r is parsed as %s, it means %s" % (t[:140], str(got)[:240], str(want)[:240]),
+                                  {"input": {"text": t}, "family": "type-library-model", "parsed": got, "means": want})
+                    continue
+        else:
+            stats["mutant-accepted" if got != "REJECTED" else "mutant-rejected"] += 1
+        if mm is None:
+            continue
+        if mm == "FUEL":
+            stats["model-fuel"] += 1
+            run.violation("correspondence", "the library model ran out of fuel on %r" % t[:120], {"input": {"text": t}}, no_input=True)
+            continue
+        if mm == "SCOPE":
+            stats["model-scope"] += 1
+            if is_valid:
+                run.violation("correspondence", "the library model declares a text of its own sub-language outside its scope: %r" % t[:120],
+                              {"input": {"text": t}}, no_input=True)
+            continue
+        run.cov["traces_validated_against_impl"] += 1
+        if mm != got and not (isinstance(mm, list) and KNOWN_PROGRAM_EDGES in known_keys and got == _without_program_edges(mm)):
+            run.cov["disagreements_checked"] += 1
+            run.violation("correspondence", "library model and parse_program disagree on %r: model %s, parser %s" % (
+                t[:140], str(mm)[:200], str(got)[:200]), {"input": {"text": t}, "model": mm, "parser": got}, no_input=True)
+    return stats
